@@ -67,7 +67,9 @@ Definition conforms (clk : Z) (t : traveller) (e : ev) : Prop :=
   clk <= ev_time e /\                                  (* time does not run backwards *)
   match e with
   | EPlan ts te d tr now pr =>
-      SecondsInDay <= now /\ te < tmax /\ pred_ok pr /\ keqb N d d = true /\
+      SecondsInDay <= now /\ te < tmax /\ keqb N d d = true /\
+      (* the predictor's answers are day numbers in range: every clearance date of an accepted proposal is positive *)
+      (forall pp, propose (t_book t) ts te d tr now pr mx = inl pp -> Pos (pp_entries pp)) /\
       (* between trips: the new trip starts after the last one flown, and planning happens no later
          than the start of the day of any promised trip not flown yet (no promised trip is skipped) *)
       (mid_trip (t_hist t) = false ->
@@ -325,13 +327,13 @@ Qed.
 Lemma plan_J clk (t : traveller) ts te d tr now (pr : predictor) :
   J clk t -> conforms clk t (EPlan ts te d tr now pr) -> J now (apply_ev t (EPlan ts te d tr now pr)).
 Proof.
-  intros HJ (Hclk & Hday & Htmax & Hpr & Hdd & Hbetween). cbn [ev_time] in Hclk. cbn [apply_ev]. unfold plan.
+  intros HJ (Hclk & Hday & Htmax & Hdd & Hpos & Hbetween). cbn [ev_time] in Hclk. cbn [apply_ev]. unfold plan.
   destruct (propose (t_book t) ts te d tr now pr mx) as [pp|er] eqn:Ep; [|apply (J_mono clk); assumption].
   unfold make. destruct (pr_version pr =? pp_version pp); [|apply (J_mono clk); assumption].
   destruct HJ as [HI HP HD HO HC].
   assert (Hsd : SecondsInDay = 86400) by reflexivity.
   destruct (propose_spec mx (t_book t) ts te d tr now pr pp Hmx ltac:(lia) Htmax HI Ep) as (HI' & _ & _).
-  pose proof (propose_pos mx (t_book t) ts te d tr now pr pp Hday Htmax HI HP Hpr Ep) as HP'.
+  pose proof (Hpos pp eq_refl) as HP'.
   destruct (propose_frame mx (t_book t) ts te d tr now pr pp HI Ep)
     as (i & Hi & Hnow & Hts0 & Cnew & Clo & Chi & Fhi & Fadj & Fdrop).
   set (b := t_book t) in *. set (b' := pp_entries pp) in *.
@@ -443,6 +445,7 @@ Definition conformsb (clk : Z) (t : traveller) (e : ev) : bool :=
   match e with
   | EPlan ts te d tr now pr =>
       (SecondsInDay <=? now) && (te <? tmax) && keqb N d d &&
+      match propose (t_book t) ts te d tr now pr mx with inl pp => posb (pp_entries pp) | inr _ => true end &&
       (mid_trip (t_hist t) ||
        ((p_ts (t_kept t) <? ts) &&
         forallb (fun i => negb (unflownb t i) || (now <=? day_start (p_ts (getp (t_book t) i)))) (seq 0 MaxPromises)))
@@ -456,20 +459,25 @@ Definition conformsb (clk : Z) (t : traveller) (e : ev) : bool :=
       (negb (mid_trip h1) || (fst (fst (trip_start_end_length h1)) <=? now))
   end.
 
-Definition ev_pred_ok (e : ev) : Prop := match e with EPlan _ _ _ _ _ pr => pred_ok pr | _ => True end.
+(** the clause about the predictor holds for every predictor whose answers are day numbers in range *)
+Lemma sane_predictor_keeps_clearances_positive (t : traveller) ts te d tr now (pr : predictor) :
+  Inv mx (t_book t) -> Pos (t_book t) -> SecondsInDay <= now -> te < tmax -> pred_ok pr ->
+  forall pp, propose (t_book t) ts te d tr now pr mx = inl pp -> Pos (pp_entries pp).
+Proof. intros HI HP Hday Htmax Hpr pp Ep. exact (propose_pos mx (t_book t) ts te d tr now pr pp Hday Htmax HI HP Hpr Ep). Qed.
 
 Lemma unflownb_spec (t : traveller) i : unflownb t i = true <-> unflown t i.
 Proof.
   unfold unflownb, unflown. rewrite andb_true_iff, negb_true_iff, Z.eqb_neq, Z.ltb_lt. reflexivity.
 Qed.
 
-Lemma conformsb_sound clk (t : traveller) e : ev_pred_ok e -> conformsb clk t e = true -> conforms clk t e.
+Lemma conformsb_sound clk (t : traveller) e : conformsb clk t e = true -> conforms clk t e.
 Proof.
-  intros Hp. unfold conformsb, conforms. rewrite andb_true_iff, Z.leb_le. intros [Hclk H]. split; [exact Hclk|].
+  unfold conformsb, conforms. rewrite andb_true_iff, Z.leb_le. intros [Hclk H]. split; [exact Hclk|].
   destruct e as [ts te d tr now pr|f now pc p debit|p share now].
-  - rewrite !andb_true_iff in H. destruct H as [[[H1 H2] H3] H4].
+  - rewrite !andb_true_iff in H. destruct H as [[[[H1 H2] H3] Hp] H4].
     apply Z.leb_le in H1. apply Z.ltb_lt in H2.
-    split; [exact H1|]. split; [exact H2|]. split; [exact Hp|]. split; [exact H3|].
+    split; [exact H1|]. split; [exact H2|]. split; [exact H3|].
+    split; [intros pp Ep; rewrite Ep in Hp; apply posb_spec, Hp|].
     intros Hm. rewrite Hm in H4. cbn [orb] in H4. apply andb_true_iff in H4. destruct H4 as [H5 H6].
     apply Z.ltb_lt in H5. split; [exact H5|]. intros i Hi Hu. rewrite forallb_forall in H6.
     specialize (H6 i ltac:(apply in_seq; lia)). apply orb_true_iff in H6. destruct H6 as [H6|H6].
@@ -492,10 +500,10 @@ Fixpoint conformingb (clk : Z) (t : traveller) (evs : list ev) : bool :=
   end.
 
 Lemma conformingb_sound evs : forall clk (t : traveller),
-  Forall ev_pred_ok evs -> conformingb clk t evs = true -> conforming clk t evs.
+  conformingb clk t evs = true -> conforming clk t evs.
 Proof.
-  induction evs as [|e r IH]; intros clk t Hp; cbn [conformingb conforming]; [auto|].
-  inversion Hp as [|? ? Hpe Hpr]; subst. rewrite andb_true_iff. intros [H1 H2].
+  induction evs as [|e r IH]; intros clk t; cbn [conformingb conforming]; [auto|].
+  rewrite andb_true_iff. intros [H1 H2].
   split; [apply conformsb_sound; assumption|apply IH; assumption].
 Qed.
 
@@ -518,10 +526,9 @@ Qed.
 
 (** the runnable form of the theorem: a history that passes the discipline check has every check-in accepted *)
 Corollary checked_history_all_accepted evs clk now :
-  Forall ev_pred_ok evs -> conformingb clk (new_traveller now) evs = true ->
-  all_acceptedb (new_traveller now) evs = true.
+  conformingb clk (new_traveller now) evs = true -> all_acceptedb (new_traveller now) evs = true.
 Proof.
-  intros Hp Hc. apply all_acceptedb_complete, (bot_history_never_refused evs clk now), conformingb_sound; assumption.
+  intros Hc. apply all_acceptedb_complete, (bot_history_never_refused evs clk now), conformingb_sound; assumption.
 Qed.
 
 End WithNum.
